@@ -162,7 +162,7 @@ Section Decomp.
   Definition TENS := tensors_acts tens (sc_chunk sc) (sc_cb sc) (sc_cbbase sc) (sc_tensors sc).
   Definition B1 := PSeq (PActs [AOpenW tmpf]) (PTry (PActs TENS) (PActs [AClose])).
   Definition TAILPRE :=
-    map ARelease ov ++ AExists dest :: (if exists_ fs0 dest then [ACopymode dest tmpf] else []).
+    map (rel_act sc) ov ++ AExists dest :: (if exists_ fs0 dest then [ACopymode dest tmpf] else []).
   Definition FIN := [ARemove tmpf; ARmdir tmpd].
   Definition POST := plan_post fs0 tens sc.
 
@@ -193,7 +193,8 @@ Section Decomp.
   Qed.
   Lemma TAILPRE_okA : forallb okA TAILPRE = true.
   Proof.
-    unfold TAILPRE. rewrite forallb_app. apply andb_true_intro. split; [apply forallb_map_const; reflexivity|].
+    unfold TAILPRE. rewrite forallb_app. apply andb_true_intro.
+    split; [apply forallb_map_const; intros h; unfold rel_act; destruct (existsb (Nat.eqb h) (sc_held sc)); reflexivity|].
     simpl. destruct (exists_ fs0 dest); simpl; [|reflexivity]. unfold okA. simpl. rewrite path_eqb_refl. reflexivity.
   Qed.
   Lemma FIN_okA : forallb okA FIN = true.
